@@ -197,8 +197,30 @@ func Ite(c, a, b *Term) *Term {
 }
 
 // BVBin folds and builds binary bit-vector operations.
+// lenSide reports an Int view of a 64-bit term that is built from string
+// lengths/offsets and small constants (int2bv is a ring homomorphism, so + and -
+// may be pushed inside it; comparisons at sort Int additionally rely on these
+// quantities being far from the 64-bit range, which holds for bounded strings).
+func lenSide(t *Term) (*Term, bool) {
+	if isI2B(t) {
+		return t.Args[0], true
+	}
+	return nil, false
+}
+
 func BVBin(op string, a, b *Term) *Term {
 	w := a.W
+	if w == 64 && (op == "bvadd" || op == "bvsub") && !(a.Const && b.Const) {
+		ia, oka := intSide(a)
+		ib, okb := intSide(b)
+		if oka && okb && (isI2B(a) || isI2B(b)) {
+			o := "+"
+			if op == "bvsub" {
+				o = "-"
+			}
+			return BVOfInt(IntBin(o, ia, ib))
+		}
+	}
 	if a.Const && b.Const {
 		x, y := a.U, b.U
 		switch op {
